@@ -9,8 +9,17 @@ From SV Require Import Model.Common Model.Msgpack Model.Unescape Model.Serialize
      Spec.MsgpackSpec Spec.SerializerSpec Proofs.UnescapeProofs Proofs.SerializerProofs Proofs.SerializerOverflow.
 Open Scope N_scope.
 
+(* VerifyConfig implies the hypothesis [chains_ok] used below (every configured rewriter chain passes
+   VerifyRewriterConfigs).  The theorems are stated with the weaker hypothesis so that they also cover serializers
+   built from a configuration WITHOUT environment fields (NewEventSerializer accepts it, only VerifyConfig insists
+   on one): then every schema field can be visible and the root map can reach len(schema)+1 entries. *)
+Theorem C10_verify_config_chains_ok :
+  forall schema cfg, verify_config schema cfg = true -> chains_ok schema cfg.
+Proof. exact verified_chain. Qed.
+Print Assumptions C10_verify_config_chains_ok.
+
 (* The headline.  For every schema (any number of fields below 65535, on either side of the fixmap/map16
-   boundary), every configuration accepted by VerifyConfig, every record (any bytes, any lengths, on either side of
+   boundary), every configuration whose rewriter chains are valid (in particular every one accepted by VerifyConfig), every record (any bytes, any lengths, on either side of
    16 / 256 / 65536), every buffer size B <= 2^32 the event fits in and whatever earlier records left in that
    buffer: SerializeRecord does not panic, emits a
    non-empty stream, and the independent decoder reads it back as exactly
@@ -19,7 +28,7 @@ Open Scope N_scope.
    result of their chain (inline prefix, unescaped value). *)
 Theorem C10_decode_serialized :
   forall (schema : list bytes) (cfg : ser_config) (rec : record) (B : nat) (ser : serializer) (buffer : bytes),
-  verify_config schema cfg = true ->
+  chains_ok schema cfg ->
   (length schema <= length (r_fields rec))%nat ->
   N.of_nat (length schema) < 65535 ->
   N.of_nat (length (c_env cfg)) < 65536 ->
@@ -38,7 +47,7 @@ Print Assumptions C10_decode_serialized.
    that is shorter than the buffer: no panic, no truncation, every reserved slot patched. *)
 Theorem C10_encode_buf_spec :
   forall schema cfg rec B ser,
-  verify_config schema cfg = true ->
+  chains_ok schema cfg ->
   (length schema <= length (r_fields rec))%nat ->
   new_serializer schema cfg B = Ok ser ->
   (length (encode_spec schema cfg rec) < B)%nat ->
@@ -52,7 +61,7 @@ Print Assumptions C10_encode_buf_spec.
    is dropped) or the complete event.  A truncated or otherwise malformed event is never emitted. *)
 Theorem C10_never_emits_garbage :
   forall schema cfg rec B ser buffer,
-  verify_config schema cfg = true ->
+  chains_ok schema cfg ->
   (length schema <= length (r_fields rec))%nat ->
   new_serializer schema cfg B = Ok ser ->
   length buffer = B ->
@@ -68,7 +77,7 @@ Print Assumptions C10_never_emits_garbage.
    left there (the model run by the correspondence check starts from a zeroed buffer). *)
 Theorem C10_buffer_contents_irrelevant :
   forall schema cfg rec B ser buffer1 buffer2 stream,
-  verify_config schema cfg = true ->
+  chains_ok schema cfg ->
   (length schema <= length (r_fields rec))%nat ->
   new_serializer schema cfg B = Ok ser ->
   length buffer1 = B -> length buffer2 = B ->
@@ -96,12 +105,31 @@ Theorem C10_small_event_small_strings :
 Proof. exact strings_small_of_size. Qed.
 Print Assumptions C10_small_event_small_strings.
 
-(* A configuration accepted by VerifyConfig whose environment fields exist in the schema is constructible:
-   NewEventSerializer returns no error and no rewriter constructor panics. *)
+(* Every configuration accepted by VerifyConfig is constructible: NewEventSerializer returns no error (VerifyConfig
+   checks the environment and hidden fields against the schema since fix c211aa1) and no rewriter constructor
+   panics. *)
 Theorem C10_verified_config_constructs :
-  forall schema cfg B, config_ok schema cfg -> exists ser, new_serializer schema cfg B = Ok ser.
+  forall schema cfg B, verify_config schema cfg = true -> exists ser, new_serializer schema cfg B = Ok ser.
 Proof. exact new_serializer_ok. Qed.
 Print Assumptions C10_verified_config_constructs.
+
+(* ... so the headline needs nothing but VerifyConfig: the serializer exists, and every record whose event fits its
+   buffer is emitted as an event that decodes to exactly the record's visible fields. *)
+Theorem C10_accepted_config_serializes :
+  forall schema cfg B,
+  verify_config schema cfg = true ->
+  N.of_nat (length schema) < 65535 ->
+  N.of_nat (length (c_env cfg)) < 65536 ->
+  N.of_nat B <= 4294967296 ->
+  exists ser, new_serializer schema cfg B = Ok ser /\
+    forall rec buffer,
+      (length schema <= length (r_fields rec))%nat -> length buffer = B ->
+      (length (encode_spec schema cfg rec) < B)%nat ->
+      exists stream,
+        serialize_record_from ser rec buffer = Ok stream /\ stream <> [] /\
+        decode_all stream = Some (event_tree schema cfg rec, []).
+Proof. exact accepted_config_serializes_lemma. Qed.
+Print Assumptions C10_accepted_config_serializes.
 
 (* 3a. RunToBuffer as the unescape rewriter calls it (first = FindFirst(src)) writes exactly the recursive
    reference unescaper's result at the start of the destination window, returns its length and leaves the rest of
@@ -214,3 +242,15 @@ Theorem C10_example :
   decode_all (encode_spec ex_schema ex_cfg ex_rec) = Some (event_tree ex_schema ex_cfg ex_rec, []).
 Proof. exact example_lemma. Qed.
 Print Assumptions C10_example.
+
+(* A second test on literals, at the fixmap limit: 15 schema fields, no environment field, all 15 visible - the root
+   map has 16 entries and is a map16 (byte 222 at offset 11); hypotheses satisfied with [c_env = []]. *)
+Theorem C10_example_sixteen_entries :
+  chains_ok ex15_schema ex15_cfg /\
+  length (visible ex15_schema ex15_cfg ex15_rec) = 15%nat /\
+  (exists ser, new_serializer ex15_schema ex15_cfg 200 = Ok ser /\
+               serialize_record ser ex15_rec = Ok (encode_spec ex15_schema ex15_cfg ex15_rec)) /\
+  nth_error (encode_spec ex15_schema ex15_cfg ex15_rec) 11 = Some 222 /\
+  decode_all (encode_spec ex15_schema ex15_cfg ex15_rec) = Some (event_tree ex15_schema ex15_cfg ex15_rec, []).
+Proof. exact example15_lemma. Qed.
+Print Assumptions C10_example_sixteen_entries.
